@@ -48,7 +48,8 @@ def gen_model_(rng):
             r = ([], [rng.choice(SP)], t, pd)
         else:
             r = ([rng.choice(SP)] if rng.chance(1, 2) else [], [rng.choice(SP)], "general",
-                 {"rate": rng.choice(["k%d*A/(1+B)" % j, "k%d*A^2 + C_1" % j, "k%d*exp(-B/4)*C_1" % j])})
+                 {"rate": rng.choice(["k%d*A/(1+B)", "k%d*A^2 + C_1", "k%d*exp(-B/4)*C_1", "k%d*log(A+1)", "k%d*exp(-A^2/8)", "k%d*A + Max(B - C_1, 0)",
+                                     "k%d*Min(A, B + 1)", "k%d*Abs(A-B)", "k%d*Heaviside(A-2.5)*B"]) % j})
         d = rng.below(5)
         if d == 1:
             r = r + ("fixed", [rng.choice(SP)] if rng.chance(1, 3) else [], [rng.choice(SP)], {"delay": rng.choice([0.5, "tau"])})
